@@ -543,6 +543,10 @@ def run_history(spec, history, nl_liberty):
     f = parse_impl(text)
     if f.dump() != text:
         return None, [("doc/initial-dump", text, f.dump())]
+    bad = live_check(f, doc)
+    view, err = impl_view_fresh(text)
+    if bad or err or view != model_view(doc):
+        return None, [("doc/initial-view", model_view(doc), bad or view)]
     for op in history:
         if not enabled(doc, op):
             return None, []      # not a history of the model
